@@ -490,6 +490,7 @@ def rule_limbs(ctx, R):
     # ---- add_core
     L = LimbBody(fb, B + "add_core", {1: "LHS", 2: "RHS"})
     if R.anchor(L.b is not None and L.V is not None, "add_core", "BigNum::add_core and its result vector"):
+        _zeroed(L, R, "add_core")
         R.analyse(L.b.name)
         inner = sorted(innermost(L.heads).items(), key=lambda kv: _pos(L.b, kv[0]))
         if R.anchor(len(inner) == 2, "add_core:loops", "the two digit loops of add_core (found %d)" % len(inner)):
@@ -512,6 +513,7 @@ def rule_limbs(ctx, R):
     # ---- sub_core
     L = LimbBody(fb, B + "sub_core", {1: "LHS", 2: "RHS"})
     if R.anchor(L.b is not None and L.V is not None, "sub_core", "BigNum::sub_core and its result vector"):
+        _zeroed(L, R, "sub_core")
         R.analyse(L.b.name)
         inner = sorted(innermost(L.heads).items(), key=lambda kv: _pos(L.b, kv[0]))
         if R.anchor(len(inner) == 2, "sub_core:loops", "the two digit loops of sub_core (found %d)" % len(inner)):
@@ -534,6 +536,7 @@ def rule_limbs(ctx, R):
     # ---- mult_core
     L = LimbBody(fb, B + "mult_core", {1: "LHS", 2: "RHS"})
     if R.anchor(L.b is not None and L.V is not None, "mult_core", "BigNum::mult_core and its accumulator vector"):
+        _zeroed(L, R, "mult_core")
         R.analyse(L.b.name)
         inner = sorted(innermost(L.heads).items(), key=lambda kv: _pos(L.b, kv[0]))
         if R.anchor(len(inner) == 1, "mult_core:loops", "the inner product loop of mult_core (found %d innermost loops)" % len(inner)):
@@ -658,6 +661,13 @@ def _sub_selection(L, R):
     R.check(len(rets) == 1 and rets[0].startswith("tuple{vec::from_elem(K0,") and rets[0].endswith(".2}"), "sub_core:returns", "sub_core returns the difference and the swapped flag: %s" % [r[:60] + "..." + r[-30:] for r in rets], b.span)
 
 
+def _zeroed(L, R, nm):
+    """the working vector of a core routine starts as all zeros (carries, partial sums and quotient bits are added into it)"""
+    roles = Roles(L.b, L.fb, param_roles={1: "LHS", 2: "RHS"})
+    fill = roles.of_origin(L.Vinit[0])
+    R.check(fill == "K0", "%s:zeroed" % nm, "%s: the working vector is created filled with zeros: %s" % (nm, fill), L.b.span)
+
+
 def _mult_structure(L, R):
     b, fb = L.b, L.fb
     roles = Roles(b, fb, param_roles={1: "LHS", 2: "RHS"})
@@ -736,6 +746,7 @@ def rule_divless(ctx, R):
     # ---- div_core
     L = LimbBody(fb, B + "div_core", {1: "LHS", 2: "RHS"})
     if R.anchor(L.b is not None and L.V is not None, "div_core", "BigNum::div_core and its quotient vector"):
+        _zeroed(L, R, "div_core")
         b = L.b
         R.analyse(b.name)
         roles = Roles(b, fb, param_roles={1: "LHS", 2: "RHS"}, overrides={L.V: "Q"})
